@@ -147,7 +147,6 @@ Proof.
   destruct (omapM (frac_bits (wmax - sign)) vals) as [ns|] eqn:Ens; [|discriminate]. cbn [bind] in H.
   pose proof (omapM_Forall2 _ _ _ Ens) as HF2.
   destruct (fold_zmax_spec ns) as (Hm0 & Hmall & Hmin). set (nfr := fold_right Z.max 0 ns) in *.
-  replace (nfr <? 0) with false in H by lia.
   set (vmax := scaled_trunc (dy_max vals) nfr) in *. set (vmin := scaled_trunc (dy_min vals) nfr) in *.
   destruct (int_loop 400 (wmax - sign + nfr) vmax vmin 0) as [ni0|] eqn:Eloop; [|discriminate].
   injection H as Hw Hf.
@@ -210,7 +209,6 @@ Theorem best_sizes_given_frac (signed : bool) wmax vals w f nfr :
   (f < w - sign -> exists v, In v vals /\ ~ (- 2^(w - sign - 1) <= scaled_trunc v f < 2^(w - sign - 1))).
 Proof.
   intros sign Hne Hdom Hm0 Hmul H Hcap. unfold best_sizes in H. fold sign in H. cbn [bind] in H.
-  replace (nfr <? 0) with false in H by lia.
   set (vmax := scaled_trunc (dy_max vals) nfr) in *. set (vmin := scaled_trunc (dy_min vals) nfr) in *.
   destruct (int_loop 400 (wmax - sign + nfr) vmax vmin 0) as [ni0|] eqn:Eloop; [|discriminate].
   injection H as Hw Hf.
@@ -260,7 +258,6 @@ Proof.
   destruct (omapM (frac_bits (wmax - sign)) vals) as [ns|] eqn:Ens; [|discriminate]. cbn [bind] in H.
   pose proof (omapM_Forall2 _ _ _ Ens) as HF2.
   destruct (fold_zmax_spec ns) as (Hm0 & Hmall & Hmin). set (nfr := fold_right Z.max 0 ns) in *.
-  replace (nfr <? 0) with false in H by lia.
   set (vmax := scaled_trunc (dy_max vals) nfr) in *. set (vmin := scaled_trunc (dy_min vals) nfr) in *.
   destruct (int_loop 400 (wmax - sign + nfr) vmax vmin 0) as [ni0|] eqn:Eloop; [|discriminate].
   injection H as Hw Hf.
@@ -313,7 +310,6 @@ Theorem best_sizes_word_within_max (signed : bool) nwo nfo wmax vals w f :
 Proof.
   unfold best_sizes. intros H.
   destruct (match nfo with Some f0 => Ok f0 | None => match omapM (frac_bits (wmax - (if signed then 1 else 0))) vals with Some ns => Ok (fold_right Z.max 0 ns) | None => Unmodelled end end) as [nfr| |] eqn:E; cbn [bind] in H; try discriminate.
-  destruct (nfr <? 0); [discriminate|].
   destruct (int_loop 400 (wmax - (if signed then 1 else 0) + nfr) (scaled_trunc (dy_max vals) nfr) (scaled_trunc (dy_min vals) nfr) 0) as [ni0|]; [|discriminate].
   destruct nwo as [w0|]; injection H as Hw Hf; lia.
 Qed.
